@@ -6,7 +6,17 @@ import "strings"
 // whose cost or recursion depth grows with the input. Valid PHP 5 and PHP 7.
 func DeepPrograms(n int) []string {
 	r := strings.Repeat
-	return []string{
+	var ops []string
+	// a chain of every associative binary operator and of every assignment operator (recursion or loops over one spine)
+	for _, op := range []string{".", "-", "*", "/", "%", "&", "|", "^", "&&", "||", "and", "or", "xor", "<<", ">>"} {
+		ops = append(ops, "<?php $a = "+r("$b "+op+" ", n)+"1;")
+	}
+	for _, op := range []string{"=", ".=", "+=", "-=", "*=", "/=", "%=", "&=", "|=", "^=", "<<=", ">>="} {
+		ops = append(ops, "<?php "+r("$a "+op+" ", n)+"1;")
+	}
+	ops = append(ops, "<?php $a = "+r("$b instanceof ", n)+"C;", "<?php $a = "+r("- ", n)+"$b;", "<?php $a = "+r("(int) ", n)+"$b;", "<?php $a = "+r("@", n)+"$b;",
+		"<?php "+r("$a::", n)+"b;", "<?php echo "+r("$a, ", n)+"1;", "<?php "+r("else if ($a) ", 0)+"if ($a) $b; "+r("elseif ($a) $b; ", n)+"else $c;", "<?php if ($a) $b; "+r("else if ($a) $b; ", n))
+	return append(ops, []string{
 		"<?php $a = " + r("[", n) + "1" + r("]", n) + ";",
 		"<?php $a = " + r("(", n) + "1" + r(")", n) + ";",
 		"<?php $a = " + r("array(", n) + "1" + r(")", n) + ";",
@@ -38,5 +48,5 @@ func DeepPrograms(n int) []string {
 		"<?php " + r("namespace A; ", n),
 		"<?php use " + r("A\\B, ", n) + "C;",
 		r("<p>\n", n) + "<?php $a ?>" + r("x\n", n),
-	}
+	}...)
 }
